@@ -47,6 +47,9 @@ opts: dict (unknown keys raise NotImplementedError)
                                     (grammatically valid, exotic: libarchive calls it malformed)
   forging opts (honest() is False):
     "aes_folder": k                 folder k gets the 7zAES coder id 06 F1 07 01 with dummy properties; payload is NOT encrypted
+    "header_aes": "single" | "chain"   (needs "header": "encoded") the folder of the packed header declares the 7zAES coder
+                 (single: 7zAES alone; chain: 7zAES + header coder, what `7z a -p -mhe=on` writes); the packed header bytes stay in
+                 clear - a detection shell like "aes_folder"
     "aes_mode":  "single" (default: the AES coder replaces the folder's coder) | "chain" (two coders 7zAES, <coder> and the
                  bind pair (1, 0), which is how 7-Zip lays out an encrypted + compressed folder)
     "no_streams": True              names only: no MainStreamsInfo at all, no pack streams (members keep EmptyStream = 0)
@@ -82,7 +85,7 @@ AES_PROPS = b"\x53\x07" + bytes(range(0xA0, 0xA8))
 MEMBER_KEYS = {"name", "data", "dir", "empty_file", "attrs", "mtime", "empty_stream_bit", "empty_file_bit"}
 OPT_KEYS = {"coder", "dict_size", "layout", "header", "header_coder", "crc", "substreams", "always_num_unpack", "pack_crc",
             "pack_gap", "empty_between", "empty_as_header", "aes_folder", "aes_mode", "no_streams", "unpack_size_override",
-            "num_files_override"}
+            "num_files_override", "header_aes"}
 CODERS = ("copy", "lzma", "lzma2")
 LAYOUTS = ("solid", "per_file", "two_folders")
 # what the writer can express (archive writers take member lists, not ADM documents: CAPS lists features, not constructors)
@@ -229,6 +232,10 @@ def _opts(opts):
         raise NotImplementedError(f"7z substreams {o.get('substreams')!r}")
     if o.get("aes_mode", "single") not in ("single", "chain"):
         raise NotImplementedError(f"7z aes_mode {o.get('aes_mode')!r}")
+    if o.get("header_aes") not in (None, "single", "chain"):
+        raise NotImplementedError(f"7z header_aes {o.get('header_aes')!r}")
+    if o.get("header_aes") and o.get("header", "plain") != "encoded":
+        raise ValueError("header_aes needs header=encoded")
     return o
 
 
@@ -236,7 +243,7 @@ def honest(members, opts=None) -> bool:
     o = _opts(opts)
     if o.get("empty_between"):
         members = with_empty_between(members)
-    if any(o.get(k) is not None for k in ("aes_folder", "unpack_size_override", "num_files_override")):
+    if any(o.get(k) is not None for k in ("aes_folder", "unpack_size_override", "num_files_override", "header_aes")):
         return False
     return all(_classify(m, bool(o.get("no_streams")))[3] for m in members)
 
@@ -395,7 +402,9 @@ def sevenz(members, opts=None) -> bytes:
     body = pack_area
     if o.get("header", "plain") == "encoded" and header:
         packed, mid, props = encode(header, o.get("header_coder", "lzma"), 1 << 16)
-        hf = {"packed": packed, "id": mid, "props": props, "unpack_size": len(header), "aes": None}
+        hf = {"packed": packed, "id": mid, "props": props, "unpack_size": len(header), "aes": o.get("header_aes")}
+        if hf["aes"] == "chain":
+            packed = hf["packed"] = packed + bytes(-len(packed) % 16)          # AES works on 16-byte blocks
         enc = bytes([K_ENCODED_HEADER]) + _pack_info(len(body), [packed], False) + _unpack_info([hf], [crc32(header)])
         enc += bytes([K_END])
         body += packed
